@@ -1474,6 +1474,18 @@ pub fn gen(prop: &str, rng: &mut Rng, quick: bool, st: &mut Stats) -> Option<Vec
                 }
                 st.bump("history_pairs");
             }
+            // one large content referenced by a reader-backed tile and by a tile added after reopening, vs all in memory
+            for (k, n) in [65_536usize, 65_537, 200_000].iter().enumerate() {
+                let mode = if k % 2 == 0 { "sync" } else { "async" };
+                let m = &mode[..1];
+                let big = hex_bytes(&rng.bytes(*n));
+                let a = format!("c:none;a:5:{big};a:9:{big};a:7:0102");
+                let b = format!("c:none;a:5:{big};a:7:0102;s:{m}:{m};a:9:{big}");
+                let b2 = format!("c:none;a:9:{big};s:{m}:{m};a:7:0102;a:5:{big}");
+                c.push(format!("chk_canonical {mode} {a} {b}"));
+                c.push(format!("chk_canonical {mode} {a} {b2}"));
+                st.bump("large_content_backed_and_in_memory");
+            }
             // reader-backed (foreign: unordered, separately stored duplicates, nested leaves) vs rebuilt in memory
             for k in 0..(if quick { 16 } else { 120 }) {
                 let mut o = foreign_opts(rng, k + 2, true);
